@@ -55,17 +55,17 @@ func init() {
 
 // Case is one API configuration with a single operation plus one request.
 type Case struct {
-	Consumes   []string `json:"consumes"`             // consumes list of the operation (nil/empty: none declared)
-	Global     bool     `json:"global,omitempty"`     // the list is declared at spec level, not on the operation
-	Default    string   `json:"default"`              // untyped.API.DefaultConsumes ("" = no default)
-	Registered []string `json:"registered"`           // media-type keys with a (tagged) consumer registered API-wide
-	Method     string   `json:"method"`               // GET PUT POST DELETE OPTIONS HEAD PATCH
-	HasCT      bool     `json:"has_ct"`               // Content-Type header line present
-	CT         mon.Q    `json:"ct"`                   // its value
-	BodyMode   string   `json:"body_mode"`            // cl | cl+hdr | chunked | none | cl0+hdr | chunked-empty | tcp-cl | tcp-chunked | tcp-none
-	Payload    mon.Q    `json:"payload"`              // body bytes (ignored for body-less modes)
-	Shape      string   `json:"shape,omitempty"`      // generator label of the consumes shape (coverage only)
-	Intent     string   `json:"intent,omitempty"`     // generator label of the header category (coverage only)
+	Consumes   []string `json:"consumes"`         // consumes list of the operation (nil/empty: none declared)
+	Global     bool     `json:"global,omitempty"` // the list is declared at spec level, not on the operation
+	Default    string   `json:"default"`          // untyped.API.DefaultConsumes ("" = no default)
+	Registered []string `json:"registered"`       // media-type keys with a (tagged) consumer registered API-wide
+	Method     string   `json:"method"`           // GET PUT POST DELETE OPTIONS HEAD PATCH
+	HasCT      bool     `json:"has_ct"`           // Content-Type header line present
+	CT         mon.Q    `json:"ct"`               // its value
+	BodyMode   string   `json:"body_mode"`        // cl | cl+hdr | chunked | none | cl0+hdr | chunked-empty | tcp-cl | tcp-chunked | tcp-none
+	Payload    mon.Q    `json:"payload"`          // body bytes (ignored for body-less modes)
+	Shape      string   `json:"shape,omitempty"`  // generator label of the consumes shape (coverage only)
+	Intent     string   `json:"intent,omitempty"` // generator label of the header category (coverage only)
 }
 
 var methods = []string{"GET", "PUT", "POST", "DELETE", "OPTIONS", "HEAD", "PATCH"}
@@ -144,6 +144,11 @@ func classifyCT(has bool, v string) (hdrKind, string) {
 	// type "/" subtype
 	slash := strings.IndexByte(base, '/')
 	grayBase := false
+	if slash < 0 && isToken(base) {
+		// not a media type for RFC 7231, but a lone token is what Go's mime parser accepts (it also
+		// serves Content-Disposition): "cannot be parsed" is debatable, so 400 or 415-as-that-type both pass
+		return hGray, strings.ToLower(base)
+	}
 	if slash <= 0 || slash == len(base)-1 || strings.Count(base, "/") != 1 {
 		return hMalformed, ""
 	}
@@ -354,15 +359,15 @@ func expect(c *Case) expectation {
 // ---------------------------------------------------------------------------------------------
 
 type observation struct {
-	Status     int      `json:"status"`
-	Consumers  []string `json:"consumers,omitempty"` // tags of the consumers whose Consume ran, in order
-	BodySeen   []mon.Q  `json:"body_seen,omitempty"` // what each of them read
-	Handler    int      `json:"handler"`             // entry 1: operation handler runs; entry 2: binder runs that returned nil
-	RouteCons  string   `json:"route_consumer,omitempty"`
-	Panic      string   `json:"panic,omitempty"`
-	Err        string   `json:"err,omitempty"`
-	NoRoute    bool     `json:"no_route,omitempty"`
-	Transport  string   `json:"transport_error,omitempty"`
+	Status    int      `json:"status"`
+	Consumers []string `json:"consumers,omitempty"` // tags of the consumers whose Consume ran, in order
+	BodySeen  []mon.Q  `json:"body_seen,omitempty"` // what each of them read
+	Handler   int      `json:"handler"`             // entry 1: operation handler runs; entry 2: binder runs that returned nil
+	RouteCons string   `json:"route_consumer,omitempty"`
+	Panic     string   `json:"panic,omitempty"`
+	Err       string   `json:"err,omitempty"`
+	NoRoute   bool     `json:"no_route,omitempty"`
+	Transport string   `json:"transport_error,omitempty"`
 }
 
 type env struct {
@@ -689,10 +694,10 @@ type finding struct {
 
 func (e *expectation) admitFeature(c *Case) string {
 	f := e.admit
-	if e.kind == hAbsent {
-		return f + "/no-content-type-header"
-	}
 	if f == "exact" || f == "default" {
+		if e.kind == hAbsent {
+			return f + "/no-content-type-header"
+		}
 		f += "/" + spelling(string(c.CT))
 	}
 	return f
@@ -700,10 +705,10 @@ func (e *expectation) admitFeature(c *Case) string {
 
 func (e *expectation) refuseFeature(c *Case) string {
 	switch {
-	case e.kind == hAbsent:
-		return "no-content-type-header"
 	case e.emptyList:
 		return "empty-consumes-no-default"
+	case e.kind == hAbsent:
+		return "no-content-type-header"
 	}
 	return "header-" + spelling(string(c.CT))
 }
@@ -976,11 +981,11 @@ type sample struct {
 }
 
 // runCase executes one case in isolation (its own description with the single operation) and reports.
-func runCase(m *mon.M, c *Case) {
+func runCase(m *mon.M, c *Case) int {
 	e, err := buildEnv([]opSpec{{consumes: c.Consumes}}, c.Global, c.Default, c.Registered)
 	if err != nil {
 		m.Class("env-build-failed")
-		return
+		return 0
 	}
 	defer e.close()
 	fs, o1, o2 := evalOn(m, e, 0, c)
@@ -988,6 +993,7 @@ func runCase(m *mon.M, c *Case) {
 		m.Violate(f.code+"/"+f.feature, f.text+fmt.Sprintf("\nconsumes=%q default=%q method=%s body=%s content-type=%s\nuntyped: %+v\nbind_valid_request: %+v",
 			c.Consumes, c.Default, c.Method, c.BodyMode, ctText(c), *o1, *o2), c)
 	}
+	return len(fs)
 }
 
 func ctText(c *Case) string {
